@@ -91,7 +91,7 @@ def degenerate(ctx, backend):
 
 
 def generated(ctx, backend, n):
-    ctx.given("twin", {"p": prog.program(gen.text(max_tokens=4), encoded_ctor=True), "touch": st.booleans()}, max_examples=n, fixed={"backend": backend})
+    ctx.given("twin", {"p": prog.program(gen.text(max_tokens=4), encoded_ctor=True, enc_mixed_case=True), "touch": st.booleans()}, max_examples=n, fixed={"backend": backend})
 
 
 def shards(tier, seed):
